@@ -1,25 +1,31 @@
 (* Evaluation entry points for C15 cases. *)
 From stdpp Require Import strings gmap sets.
-From CG Require Export Base.Cases Base.Oracle Model.Bench Model.BenchSpec Model.Lint.
+From CG Require Export Base.Cases Base.Oracle Model.Bench Model.BenchSpec Model.BenchScan Model.Lint.
 Open Scope string_scope.
 
 Inductive case :=
 (* the real reader on a rendering of the line list ls; obs = recorded circuit or exception class *)
-| CRead (name : string) (ls : list bline) (obs : res Circuit)
+| CRead (name text : string) (ls : list bline) (obs : res Circuit)
 (* the real writer on C (its text tokenised to wobs, the set orders read off that text), then the real reader on that text *)
-| CRound (C : Circuit) (ord : word) (wobs : res (list bline)) (robs : res Circuit).
+| CRound (C : Circuit) (ord : word) (wtext : string) (wobs : res (list bline)) (robs : res Circuit).
 
 Definition mk_ord i o n f k := {| o_in := i; o_out := o; o_nodes := n; o_fi := f; o_const := k |}.
 
 Definition agree (k : case) : bool :=
   match k with
-  | CRead name ls obs =>
+  | CRead name text ls obs =>
       bool_decide (bench_read name ls = obs)
+      (* character level: the regex model's scan of the text is the line list (statements by pass), and the reader model run
+         on the text itself gives the recorded result *)
+      && bool_decide (bench_scan text = by_pass ls) && bool_decide (bench_read_text name text = obs)
       (* the closed form the theorems are stated over is what the mirrored reader computes *)
       && (if wfb ls then bool_decide (bench_read name ls = Ok (bench_closed name ls)) else true)
-  | CRound C ord wobs robs =>
+  | CRound C ord wtext wobs robs =>
       bool_decide (bench_write C ord = wobs)
-      && match wobs with Ok ls => bool_decide (bench_read (c_name C) ls = robs) | _ => true end
+      && match wobs with
+         | Ok ls => bool_decide (bench_read (c_name C) ls = robs)
+                    && bool_decide (bench_scan wtext = by_pass ls) && bool_decide (bench_read_text (c_name C) wtext = robs)
+         | _ => true end
   end.
 
 (* ---- the property, judged on what the implementation returned ---- *)
@@ -81,11 +87,11 @@ Definition round_ok (C C' : Circuit) : bool :=
 
 Definition holds (k : case) : bool :=
   match k with
-  | CRead _ ls obs =>
+  | CRead _ _ ls obs =>
       if wfb ls && acyclicb (dep_graph ls)
       then match obs with Ok C => reader_ok ls C | _ => false end
       else true                                 (* outside the dialect the property is silent *)
-  | CRound C _ wobs robs =>
+  | CRound C _ _ wobs robs =>
       if round_guard C
       then match wobs, robs with Ok _, Ok C' => round_ok C C' | _, _ => false end
       else true
